@@ -38,8 +38,41 @@ func init() {
 		s, p := tstr(a[0]), tstr(a[1])
 		return Term{"(ite (str.prefixof " + p + " " + s + ") (str.substr " + s + " (str.len " + p + ") (- (str.len " + s + ") (str.len " + p + "))) " + s + ")", SStr}, true
 	}
+	// path and file-system functions: uninterpreted, with the relations their implementations guarantee
+	libModels["filepath.Split"] = func(x *Exec, st *State, e *ast.CallExpr, a []Value, _ []types.Type) (Value, bool) {
+		p := asTerm(a[0])
+		dir := x.uf("lib_filepath.SplitDir", SStr, p)
+		file := x.uf("lib_filepath.SplitFile", SStr, p)
+		if !x.underBinder(p.S) {
+			// filepath.Dir(p) is Clean of the directory part Split returns (same scan in both, unix paths)
+			x.noteAssume("filepath.Dir(p) == filepath.Clean(dir) where dir, _ = filepath.Split(p) (their unix implementations)")
+			d := x.uf("lib_filepath.Dir", SStr, p)
+			st.assume(eq(d, x.uf("lib_filepath.Clean", SStr, dir)))
+		}
+		return TupleV{dir, file}, true
+	}
+	libModels["filepath.Join"] = func(x *Exec, st *State, e *ast.CallExpr, a []Value, _ []types.Type) (Value, bool) {
+		if len(a) != 2 || e.Ellipsis.IsValid() {
+			return nil, false
+		}
+		return x.uf("pathJoin2", SStr, asTerm(a[0]), asTerm(a[1])), true
+	}
+	libModels["fs.Stat"] = func(x *Exec, st *State, e *ast.CallExpr, a []Value, _ []types.Type) (Value, bool) {
+		// the file system is a fixed function of (fs, path) during the call: isDirAt(fs, path)
+		fi := x.fresh("fi", SInt)
+		err := x.fresh("staterr", SInt)
+		x.noteAssume("fs.Stat: the file system does not change during the unit; err == nil && fi.IsDir() iff isDirAt(fs, path)")
+		st.assume("(= (and (= " + err.S + " 0) (fiIsDir " + fi.S + ")) (isDirAt " + tstr(a[0]) + " " + tstr(a[1]) + "))")
+		return TupleV{fi, err}, true
+	}
+	libModels["fs.FileInfo.IsDir"] = func(x *Exec, st *State, e *ast.CallExpr, a []Value, _ []types.Type) (Value, bool) {
+		return Term{"(fiIsDir " + tstr(a[0]) + ")", SBool}, true
+	}
+	libModels["errors.Is"] = func(x *Exec, st *State, e *ast.CallExpr, a []Value, _ []types.Type) (Value, bool) {
+		return x.uf("lib_errors.Is", SBool, asTerm(a[0]), asTerm(a[1])), true
+	}
 	// pure library functions kept uninterpreted (their meaning is shared with the spec side)
-	for _, n := range []string{"strings.TrimSpace", "path.Base", "filepath.Base", "path/filepath.Base", "strings.ToLower", "filepath.Dir", "path/filepath.Dir", "filepath.Clean", "path/filepath.Clean", "path.Clean", "path.Dir"} {
+	for _, n := range []string{"strings.TrimSpace", "path.Base", "filepath.Base", "path/filepath.Base", "strings.ToLower", "filepath.Dir", "path/filepath.Dir", "filepath.Clean", "path/filepath.Clean", "path.Clean", "path.Dir", "types.Package.Path", "types.Package.Name"} {
 		n := n
 		libModels[n] = func(x *Exec, st *State, e *ast.CallExpr, a []Value, _ []types.Type) (Value, bool) {
 			var ts []Term
@@ -122,6 +155,7 @@ func init() {
 			st.names["callSeq"] = Term{"(store " + seq.S + " " + n.S + " " + asTerm(a[0]).S + ")", seq.Sort}
 			st.names["callCount"] = Term{"(+ " + n.S + " 1)", SInt}
 		}
+		x.lockedCall(types.ExprString(e.Fun), st)
 		st.names["$pendingPanic"] = "reflect.Value.Call"
 		x.noteAssume("trusted: reflect.Value.Call applies its receiver once and may panic")
 		return x.newRef(st, "callres"), true
@@ -180,6 +214,27 @@ func init() {
 		r := Term{"(constToInt " + c.S + ")", SInt}
 		return r, true
 	}
+	// float / complex / bool / string views of a constant: go/constant's own roundings, uninterpreted
+	// (constF32 rounds the exact value ONCE to float32; it is not roundKind(float32, constF64(c)))
+	for n, uf := range map[string]string{"constant.Float32Val": "constF32", "constant.Float64Val": "constF64"} {
+		uf := uf
+		libModels[n] = func(x *Exec, st *State, e *ast.CallExpr, a []Value, _ []types.Type) (Value, bool) {
+			c := asTerm(a[0])
+			return TupleV{Term{"(" + uf + " " + c.S + ")", SInt}, x.uf(uf+"Exact", SBool, c)}, true
+		}
+	}
+	for n, uf := range map[string]string{"constant.ToFloat": "constToFloat", "constant.Real": "constReal", "constant.Imag": "constImag", "constant.ToComplex": "constToComplex"} {
+		uf := uf
+		libModels[n] = func(x *Exec, st *State, e *ast.CallExpr, a []Value, _ []types.Type) (Value, bool) {
+			return Term{"(" + uf + " " + asTerm(a[0]).S + ")", SInt}, true
+		}
+	}
+	libModels["constant.BoolVal"] = func(x *Exec, st *State, e *ast.CallExpr, a []Value, _ []types.Type) (Value, bool) {
+		return Term{"(constBoolVal " + asTerm(a[0]).S + ")", SBool}, true
+	}
+	libModels["constant.StringVal"] = func(x *Exec, st *State, e *ast.CallExpr, a []Value, _ []types.Type) (Value, bool) {
+		return Term{"(constStringVal " + asTerm(a[0]).S + ")", SStr}, true
+	}
 	libModels["constant.Int64Val"] = func(x *Exec, st *State, e *ast.CallExpr, a []Value, _ []types.Type) (Value, bool) {
 		c := asTerm(a[0])
 		v := x.fresh("i64val", SInt)
@@ -220,6 +275,25 @@ func init() {
 		libModels[n] = func(x *Exec, st *State, e *ast.CallExpr, a []Value, _ []types.Type) (Value, bool) {
 			return x.newRef(st, "err"), true // a new, non-nil error value
 		}
+	}
+	// strings.SplitN(s, sep, 2) with a non-empty literal separator: at most two parts, the second is
+	// the unsplit remainder (documented behaviour)
+	libModels["strings.SplitN"] = func(x *Exec, st *State, e *ast.CallExpr, a []Value, _ []types.Type) (Value, bool) {
+		s, sep, n := asTerm(a[0]), asTerm(a[1]), asTerm(a[2])
+		if n.S != "2" || !strings.HasPrefix(sep.S, "\"") || sep.S == "\"\"" || x.underBinder(s.S) {
+			return nil, false
+		}
+		h := x.uf("lib_strings_SplitN2", SInt, s, sep)
+		el := x.uf("lib_strings_SplitN2_elems", arraySort(SInt, SStr), s, sep)
+		se := x.heapGet(st, x.seKey(SStr), arraySort(SInt, arraySort(SInt, SStr)))
+		x.slen(h)
+		idx := "(str.indexof " + s.S + " " + sep.S + " 0)"
+		key := h.S
+		x.declare("(assert (> "+h.S+" 0))", "ax_splitn_pos:"+key)
+		x.declare("(assert (= (select "+se.S+" "+h.S+") "+el.S+"))", "ax_splitn_el:"+key+se.S)
+		x.declare("(assert (ite (str.contains "+s.S+" "+sep.S+") (and (= (slen "+h.S+") 2) (= (select "+el.S+" 0) (str.substr "+s.S+" 0 "+idx+")) (= (select "+el.S+" 1) (str.substr "+s.S+" (+ "+idx+" (str.len "+sep.S+")) (- (str.len "+s.S+") (+ "+idx+" (str.len "+sep.S+")))))) (and (= (slen "+h.S+") 1) (= (select "+el.S+" 0) "+s.S+"))))", "ax_splitn_def:"+key)
+		x.noteAssume("trusted: strings.SplitN(s, sep, 2) yields [s] when s has no sep, else [before first sep, remainder]")
+		return h, true
 	}
 	libModels["strconv.Atoi"] = func(x *Exec, st *State, e *ast.CallExpr, a []Value, _ []types.Type) (Value, bool) {
 		s := asTerm(a[0])
@@ -315,6 +389,31 @@ func (x *Exec) evalCall(e *ast.CallExpr, st *State) (Value, types.Type) {
 			}
 		}
 		// call through an opaque function value (field, map entry...)
+		if x.con != nil && x.con.Opts["trace-calls"] != "" {
+			// ghost trace of the applications of the named function values: tracedCount, tracedArg(k) = first argument
+			nm := ""
+			switch fe := unparen(e.Fun).(type) {
+			case *ast.SelectorExpr:
+				nm = fe.Sel.Name
+			case *ast.Ident:
+				nm = fe.Name
+			}
+			for _, w := range strings.Split(x.con.Opts["trace-calls"], ",") {
+				if strings.TrimSpace(w) == nm && nm != "" {
+					args, _ := x.evalArgs(e.Args, st)
+					cnt := asTerm(st.names["tracedCount"])
+					seq := asTerm(st.names["tracedSeq"])
+					var a0 Term = intLit(0)
+					if len(args) > 0 {
+						a0 = asTerm(args[0])
+					}
+					st.names["tracedSeq"] = Term{"(store " + seq.S + " " + cnt.S + " " + a0.S + ")", seq.Sort}
+					st.names["tracedCount"] = Term{"(+ " + cnt.S + " 1)", SInt}
+					x.noteAssume("traced call of the function value " + nm + ": recorded in the ghost trace; its effect on the modelled heap is not followed")
+					return x.opaqueResult(e, st), x.typeOf(e)
+				}
+			}
+		}
 		if x.con != nil && x.con.Opts["fn-values"] == "pure" {
 			if rt := x.typeOf(e); rt != nil {
 				if _, isTuple := rt.(*types.Tuple); !isTuple && x.sortOf(rt) == SInt {
@@ -368,7 +467,7 @@ func (x *Exec) evalCall(e *ast.CallExpr, st *State) (Value, types.Type) {
 	if v, ok := x.syncModel(name, f, args, e, st); ok {
 		return v, x.typeOf(e)
 	}
-	if m, ok := libModels[name]; ok {
+	if m, ok := x.libModel(name); ok {
 		if v, ok := m(x, st, e, args, ats); ok {
 			if t, isT := v.(Term); isT {
 				x.rangeAssume(st, t, x.typeOf(e)) // the static result type bounds the value
@@ -460,6 +559,9 @@ func unparen(e ast.Expr) ast.Expr {
 func (x *Exec) syncModel(name string, f *FuncV, args []Value, e *ast.CallExpr, st *State) (Value, bool) {
 	switch name {
 	case "sync.RWMutex.RLock", "sync.RWMutex.RUnlock", "sync.RWMutex.Lock", "sync.RWMutex.Unlock", "sync.Mutex.Lock", "sync.Mutex.Unlock":
+		if x.con != nil && x.con.Opts["locks"] == "track" && !x.contract {
+			x.trackLock(name, e, st)
+		}
 		x.noteAssume("A3: mutex operations are no-ops (sequential semantics)")
 		return intLit(0), true
 	case "atomic.LoadUint64", "atomic.LoadInt64", "atomic.StoreUint64", "atomic.AddUint64", "atomic.AddInt64", "atomic.LoadInt32", "atomic.StoreInt32":
@@ -731,7 +833,7 @@ func (x *Exec) applyContract(c *Contract, f *types.Func, e *ast.CallExpr, args [
 	}
 	site := types.ExprString(e.Fun)
 	for _, r := range c.Requires {
-		if r.Prop != "" && r.Prop != x.prop {
+		if r.Prop != "" && r.Prop != "assume" && !propIn(r.Prop, x.prop) {
 			continue // a precondition that belongs to another property's reading of the contract
 		}
 		if r.Prop == "assume" {
@@ -744,8 +846,8 @@ func (x *Exec) applyContract(c *Contract, f *types.Func, e *ast.CallExpr, args [
 		phi := x.evalBool(r.Expr, st)
 		x.contract = false
 		ob := x.oblige(st, "pre", lab+"@"+site, phi, r.Src)
-		if r.Prop != "" {
-			ob.Prop = r.Prop
+		if r.Prop != "" && propIn(r.Prop, x.prop) {
+			ob.Prop = x.prop
 		}
 		x.contract = true
 	}
@@ -762,7 +864,15 @@ func (x *Exec) applyContract(c *Contract, f *types.Func, e *ast.CallExpr, args [
 	}
 	*pre = *st.clone()
 	// havoc frame
-	if !c.Pure {
+	if !c.Pure && c.HasMod {
+		// object-level frame (verified against the callee's body when the contract is not trusted):
+		// only the listed fields of the listed objects change
+		for _, mt := range x.modTargets(c, st) {
+			arr := x.heapGet(st, mt.key, arraySort(SInt, mt.sort))
+			st.heap[mt.key] = Term{"(store " + arr.S + " " + mt.ref.S + " " + x.fresh("mod_"+sanitize(mt.key), mt.sort).S + ")", arr.Sort}
+		}
+	}
+	if !c.Pure && !c.HasMod {
 		for _, a := range c.Assigns {
 			x.heapHavoc(st, a)
 		}
@@ -894,6 +1004,31 @@ func (x *Exec) applyContract(c *Contract, f *types.Func, e *ast.CallExpr, args [
 	}
 	oldSave := st.old
 	st.old = pre
+	var ghostSave map[string]Value
+	if c.Opts["trace-calls"] != "" {
+		// the callee's ghost trace is its own (counted from its entry): fresh symbols on the caller's side
+		ghostSave = map[string]Value{}
+		for _, k := range []string{"tracedCount", "tracedSeq", "$type:tracedArg"} {
+			ghostSave[k] = st.names[k]
+		}
+		x.nfresh++
+		st.names["tracedCount"] = x.declConst(fmt.Sprintf("tracedCount_c%d", x.nfresh), SInt)
+		st.names["tracedSeq"] = x.declConst(fmt.Sprintf("tracedSeq_c%d", x.nfresh), arraySort(SInt, SInt))
+		if fd, fpkg := x.L.funcDeclPkg(f); fd != nil {
+			if t := tracedArgType(fd, fpkg.TypesInfo, c.Opts["trace-calls"]); t != nil {
+				st.names["$type:tracedArg"] = t
+			}
+		}
+	}
+	defer func() {
+		for k, v := range ghostSave {
+			if v == nil {
+				delete(st.names, k)
+			} else {
+				st.names[k] = v
+			}
+		}
+	}()
 	if c.Opts["opaque"] != "true" && c.Opts["opaque-in"] != x.mode {
 		x.assuming = true
 		for _, en := range c.Ensures {
@@ -1026,6 +1161,14 @@ func (x *Exec) evalSpecCall(e *ast.CallExpr, st *State) (Value, types.Type) {
 	case "rvInt", "rvFloat", "rvComplex", "rvString", "rvBool", "rvIface":
 		which := map[string]string{"rvInt": "I", "rvFloat": "F", "rvComplex": "C", "rvString": "S", "rvBool": "B", "rvIface": "X"}[name]
 		return x.rvRead(st, which, x.evalT(e.Args[0], st)), nil
+	case "tracedAt": // tracedAt(k): the first argument of the k-th traced function-value application
+		k := x.evalT(e.Args[0], st)
+		seq := asTerm(st.names["tracedSeq"])
+		v := Term{"(select " + seq.S + " " + k.S + ")", SInt}
+		if t, ok := st.names["$type:tracedArg"].(types.Type); ok {
+			return v, t
+		}
+		return v, nil
 	case "calledAt": // calledAt(k): the k-th function value applied through reflect.Value.Call
 		k := x.evalT(e.Args[0], st)
 		seq := asTerm(st.names["callSeq"])
@@ -1125,7 +1268,7 @@ func (x *Exec) evalSpecCall(e *ast.CallExpr, st *State) (Value, types.Type) {
 				_, isType := obj.(*types.TypeName)
 				isSpec = isPred || isSpecFn || isFunc || isType || (!inNames && x.conScope[id.Name] == nil && !x.openCaptured)
 				switch id.Name {
-				case "implies", "iff", "ite", "old", "forall", "exists", "len", "has", "fresh", "substr", "nth", "forallS", "existsS", "atSelect", "calledAt", "rvInt", "rvFloat", "rvComplex", "rvString", "rvBool", "rvIface":
+				case "implies", "iff", "ite", "old", "forall", "exists", "len", "has", "fresh", "substr", "nth", "forallS", "existsS", "atSelect", "calledAt", "tracedAt", "rvInt", "rvFloat", "rvComplex", "rvString", "rvBool", "rvIface":
 					isSpec = true
 				}
 			}
@@ -1247,12 +1390,15 @@ func (x *Exec) evalSpecCall(e *ast.CallExpr, st *State) (Value, types.Type) {
 			if resT.Len() > 0 {
 				rtype = resT.At(0).Type()
 			}
-			if m, ok := libModels[n]; ok {
+			if m, ok := x.libModel(n); ok {
 				if v, ok := m(x, st, e, args, ats); ok {
 					return v, rtype
 				}
 			}
-			if c := x.lookupContract(fn); c != nil && c.Pure {
+			if c := x.lookupContract(fn); c != nil && (c.Pure || c.Opts["function"] == "true") {
+				if !c.Pure {
+					x.noteAssume("calls of " + n + " are treated as a function of the arguments (the type descriptors it reads are not modified between the calls of one unit)")
+				}
 				var ts []Term
 				for _, a := range args {
 					ts = append(ts, asTerm(a))
@@ -1279,7 +1425,7 @@ func (x *Exec) evalSpecCall(e *ast.CallExpr, st *State) (Value, types.Type) {
 	if fn, ok := obj.(*types.Func); ok {
 		args, ats := x.evalArgs(e.Args, st)
 		n := calleeName(fn)
-		if m, ok := libModels[n]; ok {
+		if m, ok := x.libModel(n); ok {
 			if v, ok := m(x, st, e, args, ats); ok {
 				return v, fn.Type().(*types.Signature).Results().At(0).Type()
 			}
@@ -1299,4 +1445,172 @@ func (x *Exec) evalSpecCall(e *ast.CallExpr, st *State) (Value, types.Type) {
 	}
 	engineFail("contract of %s: unknown function %q", x.unit, name)
 	return nil, nil
+}
+
+// propIn: a clause tag may list several properties ("C09,C10").
+func propIn(tag, prop string) bool {
+	for _, t := range strings.Split(tag, ",") {
+		if strings.TrimSpace(t) == prop {
+			return true
+		}
+	}
+	return false
+}
+
+// tracedArgType: the static type of the first argument of the function-value applications that
+// `opt trace-calls` records in this function.
+func tracedArgType(fd ast.Node, info *types.Info, names string) types.Type {
+	var t types.Type
+	want := map[string]bool{}
+	for _, w := range strings.Split(names, ",") {
+		want[strings.TrimSpace(w)] = true
+	}
+	ast.Inspect(fd, func(n ast.Node) bool {
+		ce, ok := n.(*ast.CallExpr)
+		if !ok || len(ce.Args) == 0 || t != nil {
+			return true
+		}
+		nm := ""
+		switch fe := unparen(ce.Fun).(type) {
+		case *ast.SelectorExpr:
+			nm = fe.Sel.Name
+			if _, isFn := info.ObjectOf(fe.Sel).(*types.Func); isFn {
+				return true
+			}
+		case *ast.Ident:
+			nm = fe.Name
+			if _, isFn := info.ObjectOf(fe).(*types.Func); isFn {
+				return true
+			}
+		}
+		if want[nm] {
+			t = info.TypeOf(ce.Args[0])
+		}
+		return true
+	})
+	return t
+}
+
+type libModelFn = func(x *Exec, st *State, e *ast.CallExpr, a []Value, ats []types.Type) (Value, bool)
+
+// libModel looks a library model up; `opt uf-lib = f, g` keeps the listed single-result string
+// functions uninterpreted in this unit (their exact meaning is not needed and costs solver time).
+func (x *Exec) libModel(name string) (libModelFn, bool) {
+	if x.con != nil && x.con.Opts["uf-lib"] != "" {
+		for _, w := range strings.Split(x.con.Opts["uf-lib"], ",") {
+			if strings.TrimSpace(w) == name {
+				return func(x *Exec, st *State, e *ast.CallExpr, a []Value, _ []types.Type) (Value, bool) {
+					var ts []Term
+					for _, v := range a {
+						ts = append(ts, asTerm(v))
+					}
+					so := SStr
+					if t := x.info().TypeOf(e); t != nil {
+						so = x.sortOf(t)
+					}
+					return x.uf("lib_"+name, so, ts...), true
+				}, true
+			}
+		}
+	}
+	m, ok := libModels[name]
+	return m, ok
+}
+
+type modTarget struct {
+	key  string
+	sort Sort
+	ref  Term
+}
+
+// modTargets resolves the `modifies p.f` entries of a contract whose parameter names are bound in st.
+func (x *Exec) modTargets(c *Contract, st *State) []modTarget {
+	var out []modTarget
+	for _, m := range c.Modifies {
+		i := strings.LastIndex(m, ".")
+		if i <= 0 {
+			engineFail("modifies %q of %s.%s: want <param>.<field>", m, c.Pkg, c.Key)
+		}
+		pn, fn := m[:i], m[i+1:]
+		v, ok := st.names[pn]
+		t, ok2 := st.names["$type:"+pn].(types.Type)
+		if !ok || !ok2 {
+			engineFail("modifies %q of %s.%s: %s is not a parameter", m, c.Pkg, c.Key, pn)
+		}
+		owner := t
+		if p, ok := owner.Underlying().(*types.Pointer); ok {
+			owner = p.Elem()
+		}
+		stt, ok := owner.Underlying().(*types.Struct)
+		if !ok {
+			engineFail("modifies %q of %s.%s: %s is not a struct (pointer)", m, c.Pkg, c.Key, pn)
+		}
+		found := false
+		for k := 0; k < stt.NumFields(); k++ {
+			if f := stt.Field(k); f.Name() == fn {
+				out = append(out, modTarget{x.fieldKey(owner, f), x.sortOf(f.Type()), asTerm(v)})
+				found = true
+			}
+		}
+		if !found {
+			engineFail("modifies %q of %s.%s: no such field", m, c.Pkg, c.Key)
+		}
+	}
+	return out
+}
+
+// Lock tracking (`opt locks = track`): the locks this activation holds, kept per path as the owner
+// expressions of the mutexes (x.mutex.Lock() -> owner x).  Go's mutexes are not re-entrant: locking a
+// mutex the activation already holds, and calling an unknown function value (which may lock the frame it
+// was created in — getFunc's functions do) while holding one, are reported.
+type heldLock struct {
+	owner string // SMT term of the owner
+	text  string // source text of the mutex expression
+	write bool
+}
+
+func (x *Exec) trackLock(name string, e *ast.CallExpr, st *State) {
+	se, ok := unparen(e.Fun).(*ast.SelectorExpr)
+	if !ok {
+		return
+	}
+	text := types.ExprString(se.X)
+	owner := text
+	if me, ok := unparen(se.X).(*ast.SelectorExpr); ok {
+		save := x.contract
+		v, _ := x.eval(me.X, st)
+		x.contract = save
+		owner = asTerm(v).S + "." + me.Sel.Name
+	}
+	held, _ := st.names["$locks"].([]heldLock)
+	switch {
+	case strings.HasSuffix(name, ".Lock"), strings.HasSuffix(name, ".RLock"):
+		w := strings.HasSuffix(name, ".Lock")
+		for _, h := range held {
+			if h.owner == owner && (h.write || w) {
+				x.oblige(st, "lock", "not-held@"+text+"."+se.Sel.Name, "false", "a mutex is not re-entrant: "+text+" is already held on this path")
+			}
+		}
+		st.names["$locks"] = append(append([]heldLock{}, held...), heldLock{owner, text, w})
+	default:
+		out := append([]heldLock{}, held...)
+		for i := len(out) - 1; i >= 0; i-- {
+			if out[i].owner == owner {
+				out = append(out[:i], out[i+1:]...)
+				break
+			}
+		}
+		st.names["$locks"] = out
+	}
+}
+
+// lockedCall: an unknown function value is applied; no tracked lock may be held.
+func (x *Exec) lockedCall(what string, st *State) {
+	if x.con == nil || x.con.Opts["locks"] != "track" || x.contract {
+		return
+	}
+	held, _ := st.names["$locks"].([]heldLock)
+	for _, h := range held {
+		x.oblige(st, "lock", "free-across-call@"+what+"["+h.text+"]", "false", "no lock is held while an arbitrary function value runs: "+h.text+" is held across "+what)
+	}
 }
